@@ -71,6 +71,22 @@ pub fn boundary_cases(thorough: bool) -> Vec<BCase> {
         out.push(BCase { op, dom: 0, doms: vec![0, 2, 3], xs: vec![5.0, 0.5, -2.0] });
         out.push(BCase { op, dom: 0, doms: vec![2, 1, 1, 0], xs: vec![-4.0, -4.0, 1.5, -1.5] });
         out.push(BCase { op, dom: 0, doms: vec![3, 1], xs: vec![0.5, 0.5] });
+        // long solutions (beyond any block size a vectorised repair would use) with a different domain in
+        // every dimension: inside, below and above coordinates in turn
+        for len in [9usize, 11, 16, 17, 33] {
+            let doms: Vec<usize> = (0..len).map(|i| (i * 3 + i / 4) % DOMAINS.len()).collect();
+            let xs: Vec<f64> = (0..len)
+                .map(|i| {
+                    let (a, b) = DOMAINS[doms[i]];
+                    match i % 3 {
+                        0 => a + (b - a) * 0.25,
+                        1 => a - (b - a) * 0.5,
+                        _ => b + (b - a) * 0.75,
+                    }
+                })
+                .collect();
+            out.push(BCase { op, dom: 0, doms, xs });
+        }
     }
     out
 }
@@ -353,6 +369,8 @@ enum ICase {
     Empty,
     /// the second initialisation, executed on the same thread right after the first (of another size)
     After(Box<ICase>, Box<ICase>),
+    /// a large instance, run with mahf's default generator (seed) instead of the scripted one
+    Big(Box<ICase>, u64),
 }
 
 type IObs = (Result<(), String>, Vec<usize>, Option<String>);
@@ -467,10 +485,22 @@ fn run_init(c: &ICase) -> IObs {
             let _ = run_init(first);
             run_init(second)
         }
+        ICase::Big(inner, seed) => {
+            crate::subject::prep::REAL_RNG.with(|c| c.set(Some(*seed)));
+            let r = crate::engine::util::catch(|| run_init(inner));
+            crate::subject::prep::REAL_RNG.with(|c| c.set(None));
+            match r {
+                Ok(o) => o,
+                Err(p) => (Err(format!("panic: {}", p)), vec![], None),
+            }
+        }
     }
 }
 
 fn check_init(c: &ICase, out: &Outcome<IObs>) -> Option<(String, String)> {
+    if let ICase::Big(inner, _) = c {
+        return check_init(inner, out).map(|(s, d)| (format!("{} large-instance", s), d));
+    }
     if let ICase::After(first, second) = c {
         return check_init(second, out).map(|(s, d)| (format!("{} after-another-initialisation", s), format!("after {:?} on the same thread: {}", first, d)));
     }
@@ -480,7 +510,7 @@ fn check_init(c: &ICase, out: &Outcome<IObs>) -> Option<(String, String)> {
         ICase::Perm(k, _) => ("RandomPermutation", *k as usize, 0),
         ICase::Bits(k, _, _) => ("RandomBitstring", *k as usize, 0),
         ICase::Empty => ("Empty", 0, 0),
-        ICase::After(..) => unreachable!(),
+        ICase::After(..) | ICase::Big(..) => unreachable!(),
     };
     let head = format!("C14 init={}", name);
     let ctx = |w: String| format!("{:?}: {}", c, w);
@@ -519,6 +549,17 @@ fn init_cases(thorough: bool) -> Vec<ICase> {
         for n in 1..=(if thorough { 5 } else { 4 }) {
             v.push(ICase::Perm(k, n));
         }
+        // population sizes far beyond the exhaustive bound (incl. sizes that are no multiple of a block size)
+        if k == 1 {
+            for big in [63u32, 64, 65, 70, 100, 129, 257] {
+                v.push(ICase::Big(Box::new(ICase::Perm(big, 5)), 3));
+                v.push(ICase::Big(Box::new(ICase::Bits(big, 7, 0.5)), 4));
+                v.push(ICase::Big(Box::new(ICase::Spread(big, 3, 0)), 5));
+            }
+            v.push(ICase::Big(Box::new(ICase::Perm(3, 40)), 6));
+            v.push(ICase::Big(Box::new(ICase::Bits(3, 100, 0.5)), 7));
+            v.push(ICase::Big(Box::new(ICase::Spread(2, 40, 1)), 8));
+        }
         // an initialisation of another (larger, smaller, equal) size right before, on the same thread
         if k > 0 {
             for (n1, n2) in [(7usize, 4usize), (4, 7), (5, 5), (6, 1)] {
@@ -540,8 +581,8 @@ fn init_cases(thorough: bool) -> Vec<ICase> {
 
 pub fn run(rep: &mut Report) {
     let thorough = rep.tier == Tier::Thorough;
-    rep.alpha("initialisation: Empty, RandomSpread(k) x dimension 1..3 x 4 domains, RandomPermutation(k) x 1..5 positions, RandomBitstring(k, p in {0,1/2,1}); k in 0..3, each also right after an initialisation of another size on the same thread; all generator-word tapes over the first D draws");
-    rep.alpha("boundary repair: Saturation, Toroidal, Mirror, CompleteOneTailedNormalCorrection x domains [-1,2) [0,1) [-5,-3) [1e-3,1e3) x coordinates {a, b, their float neighbours, interior points, a - k*w, b + k*w for k in 1/4..10^5 (thorough: 3*10^6)} plus mixed 3-d vectors; the resampling operator under all <= 1 (quick) / 2 (thorough) deviations of its generator words");
+    rep.alpha("initialisation: Empty, RandomSpread(k) x dimension 1..3 x 4 domains, RandomPermutation(k) x 1..5 positions, RandomBitstring(k, p in {0,1/2,1}); k in 0..3 and population sizes 63..257, each also right after an initialisation of another size on the same thread; all generator-word tapes over the first D draws");
+    rep.alpha("boundary repair: Saturation, Toroidal, Mirror, CompleteOneTailedNormalCorrection x domains [-1,2) [0,1) [-5,-3) [1e-3,1e3) x coordinates {a, b, their float neighbours, interior points, a - k*w, b + k*w for k in 1/4..10^5 (thorough: 3*10^6)} plus mixed 3-d vectors and solutions of 9..33 coordinates with a different domain in every dimension; the resampling operator under all <= 1 (quick) / 2 (thorough) deviations of its generator words");
     rep.assume("`inside the domain` means the closed interval [a, b] (the statement says `within the bounds`); tolerance 4 ulp of max(|a|,|b|,b-a)");
     rep.assume("non-termination is decided by a wall budget of 10 s per case in a worker subprocess (terminating cases take milliseconds)");
     let seed = rep.seed;
